@@ -8,6 +8,8 @@ REPO = os.environ.get("VERIF_REPO", "/repo")
 # (type, type file, serializer file, array length, leading uint or None, [(kind, field)])   kind: req | null
 C = "protocol_types/certificates/%s.rs"
 S = "serialization/certificates/%s.rs"
+G = "protocol_types/governance/proposals/%s.rs"
+GS = "serialization/governance/proposals/%s.rs"
 def cert(ty, f, n, idx, fields):
     return (ty, C % f, S % f, n, idx, fields)
 TABLE = [
@@ -37,6 +39,15 @@ TABLE = [
     ("ProtocolVersion", "lib.rs", "serialization/general.rs", 2, None, [("req", "major"), ("req", "minor")]),
     ("TransactionInput", "protocol_types/tx_input.rs", "serialization/tx_input.rs", 2, None, [("req", "transaction_id"), ("req", "index")]),
     ("Vkeywitness", "protocol_types/witnesses/vkeywitness.rs", "serialization/witnesses/vkeywitness.rs", 2, None, [("req", "vkey"), ("req", "signature")]),
+    # governance actions (gov_action = [ parameter_change_action // ... ]) and constitution
+    ("HardForkInitiationAction", G % "hard_fork_initiation_action", GS % "hard_fork_initiation_action", 3, 1, [("null", "gov_action_id"), ("req", "protocol_version")]),
+    ("NoConfidenceAction", G % "no_confidence_action", GS % "no_confidence_action", 2, 3, [("null", "gov_action_id")]),
+    ("NewConstitutionAction", G % "new_constitution_action", GS % "new_constitution_action", 3, 5, [("null", "gov_action_id"), ("req", "constitution")]),
+    ("ParameterChangeAction", G % "parameter_change_action", GS % "parameter_change_action", 4, 0, [("null", "gov_action_id"), ("req", "protocol_param_updates"), ("null", "policy_hash")]),
+    ("TreasuryWithdrawalsAction", G % "treasury_withdrawals_action", GS % "treasury_withdrawals_action", 3, 2, [("req", "withdrawals"), ("null", "policy_hash")]),
+    ("InfoAction", G % "info_action", GS % "info_action", 1, 6, []),
+    ("Constitution", G % "constitution", GS % "constitution", 2, None, [("req", "anchor"), ("null", "script_hash")]),
+    ("UnitInterval", "lib.rs", "serialization/general.rs", 2, None, [("req", "numerator"), ("req", "denominator")], "seq![Tok::Tag(30)]"),
     ("BootstrapWitness", "protocol_types/witnesses/bootstrap_witness.rs", "serialization/witnesses/bootstrap_witness.rs", 4, None, [("req", "vkey"), ("req", "signature"), ("bytes", "chain_code"), ("bytes", "attributes")]),
 ]
 KNOWN = set("u8 u16 u32 u64 usize bool Option Vec String".split())
@@ -61,6 +72,11 @@ source = "rust/src/serialization/map_names/certificate_index_names.rs"
 kind = "enum"
 name = "CertificateIndexNames"
 discriminants = true
+[[type]]
+source = "rust/src/serialization/map_names/voting_proposal_index_names.rs"
+kind = "enum"
+name = "VotingProposalIndexNames"
+discriminants = true
 
 [[fn]]
 source = "rust/src/serialization/utils.rs"
@@ -81,12 +97,15 @@ rewrites = ["serret"]
 impl_pre = \'\'\'
     open spec fn enc_nullable(&self) -> Seq<Tok> { opt_null(*self) }
 \'\'\'
+tail = "if r_tail_ is Ok { assert(serializer.toks() =~= old(serializer).toks() + opt_null(*self)); assert(self.enc_nullable() =~= opt_null(*self)); }"
 ''']
 spec = ['''// GENERATED by tools/gen_records.py - token-level encodings of array-shaped records, transcribed from the Conway CDDL
 pub open spec fn opt_null<T: Ser>(o: Option<T>) -> Seq<Tok> { match o { Some(x) => x.enc(), None => seq![Tok::Special(CBORSpecial::Null)] } }
 ''']
 opaque = set()
-for (ty, tfile, sfile, n, idx, fields) in TABLE:
+for row in TABLE:
+    (ty, tfile, sfile, n, idx, fields) = row[:6]
+    prefix = row[6] if len(row) > 6 else None
     ft = field_types(ty, tfile)
     for k, f in fields:
         t = ft.get(f, "")
@@ -105,7 +124,7 @@ for (ty, tfile, sfile, n, idx, fields) in TABLE:
         elif k == "bytes":
             parts.append("seq![Tok::Bytes(x.%s@)]" % f)
     head = "seq![Tok::Arr(%d)%s]" % (n, (", Tok::UInt(%d)" % idx) if idx is not None else "")
-    spec.append("pub open spec fn %s_enc(x: %s) -> Seq<Tok> { %s }\n" % (ty, ty, " + ".join([head] + parts)))
+    spec.append("pub open spec fn %s_enc(x: %s) -> Seq<Tok> { %s }\n" % (ty, ty, " + ".join(([prefix] if prefix else []) + [head] + parts)))
     impl_hdr = "impl cbor_event::se::Serialize for %s" % ty
     if not re.search(re.escape(impl_hdr) + r"\b", s):
         impl_hdr = "impl Serialize for %s" % ty
@@ -119,8 +138,8 @@ rewrites = ["serret"]
 impl_pre = \'\'\'
     open spec fn enc(&self) -> Seq<Tok> { %s_enc(*self) }
 \'\'\'
-tail = "if r_tail_ is Ok { assert(serializer.toks() =~= old(serializer).toks() + %s_enc(*self)); }"
-''' % (sfile, impl_hdr, ty, ty, ty, ty))
+tail = "if r_tail_ is Ok { assert(serializer.toks() =~= old(serializer).toks() + %s_enc(*self)); assert(self.enc() =~= %s_enc(*self)); }"
+''' % (sfile, impl_hdr, ty, ty, ty, ty, ty))
     if has_group:
         toml.append('''[[fn]]
 source = "rust/src/%s"
@@ -133,9 +152,11 @@ sig_subst = [ { rule = "R-inherent", from = "fn serialize_as_embedded_group", to
 ensures = ["r is Ok", "final(serializer).toks() == old(serializer).toks() + %s_enc(*self).skip(1)"]
 tail = "if r_tail_ is Ok { assert(serializer.toks() =~= old(serializer).toks() + %s_enc(*self).skip(1)); }"
 ''' % (sfile, ty, ty, ty, ty, ty))
-own = set(t[0] for t in TABLE)
+toml.append(open(os.path.join(D, "contracts/ser_records/custom.toml")).read())
+spec.append(open(os.path.join(D, "contracts/ser_records/custom_spec.rs")).read())
+own = set(t[0] for t in TABLE) | set(re.findall(r'(?m)^name = "(\w+)"', open(os.path.join(D, "contracts/ser_records/custom.toml")).read()))
 opaque -= own
-opaque -= {"Coin", "Epoch", "Port", "BigNum", "TransactionIndex", "GovernanceActionIndex"}
+opaque -= {"Coin", "Epoch", "Port", "BigNum", "TransactionIndex", "GovernanceActionIndex", "Ed25519KeyHash", "ScriptHash"}
 open(os.path.join(D, "contracts/ser_records/unit.toml"), "w").write("\n".join(toml))
 open(os.path.join(D, "contracts/ser_records/spec.rs"), "w").write("".join(spec))
 open(os.path.join(D, "contracts/ser_records/opaque.rs"), "w").write(
